@@ -57,6 +57,16 @@ MCInitRandom == /\ g \in {MkG(sel, [f \in File |-> <<>>]) : sel \in RandomSubset
                 /\ InitRest
 MCSpecRandom == MCInitRandom /\ [][Next]_vars /\ Fair
 
+\* every ACYCLIC import digraph (the shapes of real schema sets: chains, diamonds, shared leaves at different depths), exhaustively
+SuccOf(sel, X) == UNION {sel[f] : f \in X}
+RECURSIVE ReachN(_, _, _)
+ReachN(sel, X, n) == IF n = 0 THEN X ELSE ReachN(sel, X \cup SuccOf(sel, X), n - 1)
+Acyclic(sel) == \A f \in File : f \notin ReachN(sel, sel[f], Cardinality(File))
+MCInitDag == /\ g \in {MkG(sel, [f \in File |-> <<>>]) : sel \in {x \in [File -> SUBSET File] : Acyclic(x)}}
+             /\ start \in File
+             /\ InitRest
+MCSpecDag == MCInitDag /\ [][Next]_vars /\ Fair
+
 ImportItem(t) == CASE t \in File -> [k |-> "import", ns |-> UriOf[t], loc |-> t]
                    [] t = "wk" -> [k |-> "import", ns |-> "XSD", loc |-> "xml.xsd"]
                    [] t = "noloc" -> [k |-> "import", ns |-> "Uext"]
